@@ -25,7 +25,17 @@ fn drive<const N: usize, const R: usize>(faults: bool) {
     let mut k = 0;
     while k < R {
         let mut fan = Pin::new(&mut fan);
-        if let Poll::Ready(r) = fan.as_mut().poll_ready(&mut cx) {
+        let polled = fan.as_mut().poll_ready(&mut cx);
+        if polled.is_pending() {
+            let mut any = false;
+            let mut s = 0;
+            while s < N {
+                any |= !sink(s).dead && sink(s).last_ready_pending;
+                s += 1;
+            }
+            assert!(any, "Pending only when a healthy sink answered Pending in this call (it holds the waker)");
+        }
+        if let Poll::Ready(r) = polled {
             assert!(r.is_ok(), "FanoutMany never reports a peer's failure as its own");
             let r = fan.as_mut().start_send(10 + nsent as u8);
             assert!(r.is_ok());
@@ -61,6 +71,7 @@ fn check<const N: usize>(nsent: usize) {
     while s < N {
         let st = sink(s);
         assert!(st.calls_after_death == 0, "a failed peer is never used again");
+        assert!(!st.sent_without_ready, "no sink is handed an item unless it answered poll_ready = Ready since its previous item (a bounded sink would refuse it and be evicted)");
         if !st.dead {
             assert!(st.started == nsent, "healthy sink received every message exactly once");
             let mut j = 0;
